@@ -18,16 +18,21 @@ fn any_settings() -> ParserSettings {
 fn with_increased_nesting__contract() {
     let scheme = scheme_of(&[], true);
     let settings = any_settings();
-    let cur: u16 = kani::any();
     let mut p = FilterParser::with_settings(&scheme, settings.clone());
-    p.current_nesting_depth = cur;
+    // the counter's integer type is inferred from the field, and everything below is
+    // stated over u64, so that a change of the counter's width is judged by the
+    // contract (it must count every nesting up to any configurable limit) instead of
+    // breaking the build of this obligation
+    p.current_nesting_depth = kani::any();
+    let cur = p.current_nesting_depth as u64;
+    let max = settings.max_nesting_depth as u64;
     let span = "x";
     match p.with_increased_nesting(span) {
         Err((kind, s)) => {
-            assert!(cur >= settings.max_nesting_depth, "the limit is reported only when it is reached");
+            assert!(cur >= max, "the limit is reported only when it is reached");
             match kind {
                 LexErrorKind::NestingLimitExceeded { limit } => {
-                    assert!(limit == settings.max_nesting_depth, "the error carries the configured limit");
+                    assert!(limit as u64 == max, "the error carries the configured limit");
                 }
                 _ => {
                     assert!(false, "wrong error kind");
@@ -35,16 +40,16 @@ fn with_increased_nesting__contract() {
             }
             assert!(std::ptr::eq(s, span), "the error points at the given span");
             kani::cover!(cur == 0, "limit 0 rejects the first nesting");
-            kani::cover!(cur == u16::MAX);
+            kani::cover!(cur == u16::MAX as u64);
         }
         Ok(n) => {
-            assert!(cur < settings.max_nesting_depth, "a nesting beyond the limit must be refused");
-            assert!(n.current_nesting_depth == cur + 1, "each nesting construct counts exactly once");
+            assert!(cur < max, "a nesting beyond the limit must be refused");
+            assert!(n.current_nesting_depth as u64 == cur + 1, "each nesting construct counts exactly once");
             assert!(n.settings == settings, "settings are inherited unchanged");
             assert!(std::ptr::eq(n.scheme, &scheme), "scheme is inherited");
-            assert!(p.current_nesting_depth == cur, "the outer parser is not modified");
-            kani::cover!(cur + 1 == settings.max_nesting_depth, "last allowed nesting");
-            kani::cover!(cur == u16::MAX - 1);
+            assert!(p.current_nesting_depth as u64 == cur, "the outer parser is not modified");
+            kani::cover!(cur + 1 == max, "last allowed nesting");
+            kani::cover!(cur == (u16::MAX - 1) as u64);
         }
     }
     std::mem::forget(scheme);
